@@ -312,6 +312,9 @@ func runHarness(prog *ssa.Program, pkg *ssa.Package, name, mode, solverName stri
 					msg := ""
 					if ee, ok := r.(engineError); ok {
 						msg = ee.msg
+						if os.Getenv("SYMGO_TRACE") == "2" {
+							panic(r)
+						}
 					} else {
 						msg = fmt.Sprintf("internal error: %v", r)
 						if os.Getenv("SYMGO_TRACE") != "" {
